@@ -138,6 +138,9 @@ impl Group for Run {
 /// Loopback availability: a real server; some address is driven to the drop level; others must still be served.
 pub struct Serve;
 impl Group for Serve {
+    fn timing_sensitive(&self) -> bool {
+        true
+    }
     fn name(&self) -> &'static str {
         "c12.serve"
     }
